@@ -135,6 +135,13 @@ theorem compoundC_spec (v : List ℝ) (c : ℝ) :
   | nil => rfl
   | cons x xs ih => simp [List.replicate_succ, ih]
 
+/-- the binary operators with a constant on either side apply the operation to every element,
+the constant on the side it was written -/
+theorem constOp_spec (v : List ℝ) (c : ℝ) :
+    addC v c = v.map (· + c) ∧ cAdd c v = v.map (c + ·) ∧ subC v c = v.map (· - c) ∧ cSub c v = v.map (c - ·) ∧
+    mulC v c = v.map (· * c) ∧ cMul c v = v.map (c * ·) ∧ divC v c = v.map (· / c) ∧ cDiv c v = v.map (c / ·) :=
+  ⟨rfl, rfl, rfl, rfl, rfl, rfl, rfl, rfl⟩
+
 /-- the element-wise functions keep the length and apply the function at each position -/
 theorem elementwise_fun_spec (v : List ℝ) (b : ℝ) (f : ℝ → ℝ) :
     vlog v = v.map Real.log ∧ vlogBase v b = v.map (fun x => Real.log x / Real.log b) ∧
@@ -270,8 +277,26 @@ theorem unionList_shape (vs : List (List β)) :
   · rw [vectorUnionList_eq]; exact nodup_firstOcc _
   · unfold IsUnionList; rw [vectorUnionList_eq]; exact listEq_refl _
 
-/-- `extend(v1, v2)` is the two-vector union -/
-theorem extend_spec (v1 v2 : List β) : extend deq v1 v2 = vectorUnion deq v1 v2 := rfl
+/-- `vectorUnion(v1, v2)` (repaired) holds exactly the elements of either argument … -/
+theorem union_iff (a b : List β) (x : β) : x ∈ vectorUnion deq a b ↔ x ∈ a ∨ x ∈ b := by
+  rw [vectorUnion_eq, mem_firstOcc, List.mem_append]
+
+/-- … each once, in the order of first occurrence, whatever repeats the arguments contain; it is
+the union of the list `[v1, v2]` -/
+theorem union_shape (a b : List β) :
+    vectorUnion deq a b = Spec.firstOcc deq (a ++ b) ∧ (vectorUnion deq a b).Nodup ∧
+    vectorUnion deq a b = vectorUnionList deq [a, b] ∧ IsUnionList deq [a, b] (vectorUnion deq a b) := by
+  refine ⟨vectorUnion_eq a b, ?_, rfl, ?_⟩
+  · rw [vectorUnion_eq]; exact nodup_firstOcc _
+  · unfold IsUnionList; rw [vectorUnion_eq]; simp [listEq_refl]
+
+example : vectorUnion (deq (β := Nat)) [1, 1, 2] [2, 3] = [1, 2, 3] := by decide
+
+/-- `extend(v1, v2)` keeps `v1` as it is and pushes the elements of `v2` that are not yet present:
+`v1` followed by new, pairwise distinct elements (`IsUnion`) -/
+theorem extend_spec (v1 v2 : List β) :
+    (∀ x, x ∈ extend deq v1 v2 ↔ x ∈ v1 ∨ x ∈ v2) ∧ IsUnion deq v1 v2 (extend deq v1 v2) :=
+  ⟨mem_vectorUnionOrig v1 v2, isUnion_vectorUnionOrig v1 v2⟩
 
 /-- `vectorIntersection(list)` of a non-empty list holds exactly the elements that occur in *every*
 vector of the list (the first, the last and each one in between) … -/
